@@ -31,6 +31,7 @@ type gen struct {
 	vals  []valKey
 	slots []common.Hash
 	txs   []common.Hash
+	dlgrs []common.Address // delegators: several of them end up on one validator, in any arrival order
 	weird bool // malformed / boundary value stream
 	tiny  bool // aliasing stream: very few keys, so that both sides of a copy write the SAME records / slots / lists
 }
@@ -72,6 +73,9 @@ func newGen(r *vh.RNG, weird, tiny bool) *gen {
 			g.vals[4].pk = g.vals[4].pk[:7]
 		}
 	}
+	for i := 0; i < 6; i++ {
+		g.dlgrs = append(g.dlgrs, common.BytesToAddress(r.Bytes(20)))
+	}
 	for i := 0; i < 4; i++ {
 		g.slots = append(g.slots, common.BytesToHash(r.Bytes(32)))
 		g.txs = append(g.txs, common.BytesToHash(r.Bytes(32)))
@@ -81,6 +85,12 @@ func newGen(r *vh.RNG, weird, tiny bool) *gen {
 }
 
 func (g *gen) acct() common.Address { return g.accts[g.r.Intn(len(g.accts))] }
+func (g *gen) dlgr() common.Address {
+	if g.r.Chance(25) {
+		return g.acct()
+	}
+	return g.dlgrs[g.r.Intn(len(g.dlgrs))]
+}
 func (g *gen) val() valKey          { return g.vals[g.r.Intn(len(g.vals))] }
 
 var you = new(big.Int).Exp(big.NewInt(10), big.NewInt(18), nil)
@@ -208,7 +218,7 @@ func (g *gen) candidate(e *env) string {
 		return fmt.Sprintf("UD %s %s %s %s", hx(a[:]), hx(v[:]), d, del)
 	case 9:
 		// delegation through StateDB.UpdateDelegation
-		a, v := g.acct(), g.val()
+		a, v := g.dlgr(), g.val()
 		amt := g.amount()
 		if val := st.GetValidatorByMainAddr(v.addr); val != nil && r.Chance(40) {
 			if df := val.GetDelegationFrom(a); df != nil {
@@ -236,7 +246,7 @@ func (g *gen) candidate(e *env) string {
 		}
 		nv := old.DeepCopy()
 		sub := r.Intn(10)
-		if g.tiny && r.Chance(40) {
+		if r.Chance(25) || (g.tiny && r.Chance(30)) {
 			sub = 9
 		}
 		switch sub {
@@ -268,7 +278,7 @@ func (g *gen) candidate(e *env) string {
 			if r.Chance(25) {
 				t = big.NewInt(0) // removes the link
 			}
-			return fmt.Sprintf("VD %s %s %s", hx(v.addr[:]), hx(g.acct().Bytes()), t)
+			return fmt.Sprintf("VD %s %s %s", hx(v.addr[:]), hx(g.dlgr().Bytes()), t)
 		}
 		return "UV " + hx(v.addr[:]) + " " + valFields(nv)
 	case 12:
@@ -480,6 +490,15 @@ func independent(a, b string) bool {
 	}
 	if isControl(a) || isControl(b) {
 		return false
+	}
+	// inserting / updating DIFFERENT delegators of one validator commutes: the list is sorted, the totals are sums
+	if xa, xb := strings.Fields(la), strings.Fields(lb); len(xa) == 4 && len(xb) == 4 {
+		if xa[0] == "VD" && xb[0] == "VD" && xa[1] == xb[1] && xa[2] != xb[2] {
+			return true
+		}
+		if xa[0] == "DG" && xb[0] == "DG" && xa[2] == xb[2] && xa[1] != xb[1] {
+			return true
+		}
 	}
 	fa, fb := footprint(la), footprint(lb)
 	for _, x := range fa {
